@@ -2,6 +2,7 @@ package main
 
 import (
 	"fmt"
+	"go/token"
 	"go/types"
 	"sort"
 	"strings"
@@ -25,6 +26,7 @@ func init() {
 			ruleD1(r)
 			ruleB1(r, le)
 			ruleLockOrder(r, le)
+			ruleH1(r, le)
 		},
 	})
 }
@@ -64,18 +66,29 @@ func ruleL1(r *Run, le *LockEngine) {
 
 // ruleD1: plain (non-select) sends on channels taken from a waiter table must not be able to block.
 func ruleD1(r *Run) {
-	r.Begin("D1", "dispatcher sends cannot block: wherever a goroutine performs a plain blocking send on a channel it looked up in a map field (a waiter table), every channel ever stored into that table is created with capacity >= 1; otherwise a waiter that has left stalls the dispatcher and every later caller", 3)
+	r.Begin("D1", "dispatcher sends cannot block: wherever a goroutine performs a blocking send (plain, or in a select without default) on a channel it looked up in a map field (a waiter table), every channel ever stored into that table is created with capacity >= 1; otherwise a waiter that has left stalls the dispatcher and every later caller", 3)
 	p := r.P
 	tables := map[string]bool{}
 	for _, fn := range p.Funcs {
 		allInstrs(fn, func(ins ssa.Instruction) {
-			s, ok := ins.(*ssa.Send)
-			if !ok {
-				return
+			var chans []ssa.Value
+			switch x := ins.(type) {
+			case *ssa.Send:
+				chans = append(chans, x.Chan)
+			case *ssa.Select:
+				if x.Blocking {
+					for _, st := range x.States {
+						if st.Dir == types.SendOnly {
+							chans = append(chans, st.Chan)
+						}
+					}
+				}
 			}
-			for _, l := range p.Leaves(s.Chan, provOpts{}) {
-				if strings.HasPrefix(l, "elem:/") {
-					tables[strings.TrimPrefix(l, "elem:")] = true
+			for _, ch := range chans {
+				for _, l := range p.Leaves(ch, provOpts{}) {
+					if strings.HasPrefix(l, "elem:/") {
+						tables[strings.TrimPrefix(l, "elem:")] = true
+					}
 				}
 			}
 		})
@@ -168,4 +181,62 @@ func ruleB1(r *Run, le *LockEngine) {
 	if n == 0 {
 		r.Undecided("publication sites", "no site sets connStatusClosed")
 	}
+}
+
+// ruleH1: no blocking channel operation while a mutex is held.
+func ruleH1(r *Run, le *LockEngine) {
+	r.Begin("H1", "no blocking channel operation under a mutex: a plain send or receive, or a select without a default case, is never executed while the function holds a sync mutex — unless every channel it may block on is a buffered channel created in the same function. A peer that never takes the value stalls the holder and, through the mutex, every other user of the object", 1)
+	p := r.P
+	n := 0
+	for _, fn := range p.Funcs {
+		fi := le.Info(fn)
+		if fi.Events == 0 {
+			continue
+		}
+		name := fnName(fn)
+		k := 0
+		allInstrs(fn, func(ins ssa.Instruction) {
+			blocking := false
+			what := ""
+			switch x := ins.(type) {
+			case *ssa.Send:
+				blocking, what = true, "send"
+				if mk, ok := canonVal(x.Chan).(*ssa.MakeChan); ok {
+					if sz, isK := constInt(mk.Size); isK && sz >= 1 {
+						blocking = false
+					}
+				}
+			case *ssa.UnOp:
+				if x.Op == token.ARROW {
+					blocking, what = true, "receive"
+				}
+			case *ssa.Select:
+				if x.Blocking {
+					blocking, what = true, "select without default"
+				}
+			}
+			if !blocking {
+				return
+			}
+			held := le.HeldAt(ins)
+			if len(held) == 0 {
+				return
+			}
+			// sync.Cond.L held around a select that only polls is handled by Blocking=false; here the wait is real
+			n++
+			k++
+			var hk []string
+			for key := range held {
+				hk = append(hk, key)
+			}
+			sort.Strings(hk)
+			// sends whose every target channel is provably buffered with free capacity cannot be decided statically: report
+			r.Check(fmt.Sprintf("%s blocking#%d %s", name, k, what), false, p.pos(ins.Pos()), name,
+				fmt.Sprintf("%s while holding %v: if the other side is gone the holder blocks with the lock, stalling every other user", what, hk))
+		})
+	}
+	if n == 0 {
+		r.Check("no blocking channel operation under a mutex", true, "", "", "no blocking send, receive or select executes with a mutex held")
+	}
+	r.Stat("blocking_ops_under_lock", n)
 }
